@@ -48,11 +48,11 @@ class Notifications(object):
             # come in, or we have not yet had a mempool update for the
             # new block height
             return
-        touched = tmp.pop(height)
-        for old in [h for h in tmp if h <= height]:
-            del tmp[old]
-        for old in [h for h in tbp if h <= height]:
-            touched.update(tbp.pop(old))
+        # Hand over everything pending from either source so that no touched hashX is lost
+        touched = set()
+        for pending in (tmp, tbp):
+            for old in list(pending):
+                touched.update(pending.pop(old))
         await self.notify(height, touched)
 
     async def notify(self, height, touched):
@@ -64,11 +64,11 @@ class Notifications(object):
         await self.notify(height, set())
 
     async def on_mempool(self, touched, height):
-        self._touched_mp[height] = touched
+        self._touched_mp.setdefault(height, set()).update(touched)
         await self._maybe_notify()
 
     async def on_block(self, touched, height):
-        self._touched_bp[height] = touched
+        self._touched_bp.setdefault(height, set()).update(touched)
         self._highest_block = height
         await self._maybe_notify()
 
